@@ -395,6 +395,9 @@ class GreedySelector(SelectorMixin, MetaEstimatorMixin, BaseEstimator):
             self.y_selected_ = np.zeros(
                 (n_to_select, y.reshape(y.shape[0], -1).shape[1]), float
             )
+        elif hasattr(self, "y_selected_"):
+            # a previous fit stored targets; this one has none
+            del self.y_selected_
         self.selected_idx_ = np.zeros((n_to_select), int)
 
     def _continue_greedy_search(self, X, y, n_to_select):
